@@ -56,6 +56,19 @@ def _case(draw: Any, args: dict) -> dict:
         ]
         start = 4
         n = max(n, 4)
+    elif draw(st.integers(0, 2)) == 0:
+        # two different private classes with the same short name in the two modules, one deriving from the other
+        def ms3() -> list[str]:
+            return draw(st.lists(st.sampled_from(METHODS), min_size=1, max_size=3, unique=True))
+
+        two_mods = True
+        classes += [
+            {"name": "_Priv0", "private": True, "bases": [], "methods": ms3(), "mod": 1},
+            {"name": "_Priv0", "private": True, "bases": ["1:_Priv0"], "methods": ms3(), "mod": 0},
+            {"name": "Pub2", "private": False, "bases": ["0:_Priv0"], "methods": ms3()[:1], "mod": 0},
+        ]
+        start = 3
+        n = max(n, 3)
     for i in range(start, n):
         private = draw(st.sampled_from([True, True, False])) if (i < n - 1 or start) else False
         name = ("_Priv" if private else "Pub") + str(i)
